@@ -49,6 +49,9 @@ type TV struct {
 }
 
 type Gen struct {
+	aliasOf map[string]string                       // renamed variables of fn: recorded name -> current name
+	aliasFn func(*ssa.Function) map[string]string // the same for callees
+	renames map[string]string                       // aliases actually used (reported)
 	P    *Program
 	S    *SpecSet
 	prop string
